@@ -140,6 +140,8 @@ def rules(ctx):
     copy_ctor_counter(ctx, 'R14.8')
     from .C03 import counter_handback_source
     counter_handback_source(ctx, 'R14.8')
+    from .C03 import counter_handback
+    counter_handback(ctx, 'R14.8')
 
     model_classes = {c.name for c in P.subclasses_of('DictArithmetic')}
 
